@@ -5,7 +5,7 @@ PROP = "C06"
 SPEC_MODE = "oracle"
 KEEP_PREFIX = 1
 SHRINK_BUDGET = 150
-EXTRA_MODULES = ("Sentinel.Lemmas.HotConc", "Sentinel.Lemmas.HotConcCap")
+EXTRA_MODULES = ("Sentinel.Lemmas.HotConc", "Sentinel.Lemmas.HotConcCap", "Sentinel.Lemmas.HotConcReload")
 SIZES = {"quick": 6000, "thorough": 120000}
 BATCH = 3000
 RULE = ("[plus a real-parallelism phase: 8 (thorough 20) `storm` cases, 20k (200k) rounds in all, each round = 2-6 goroutines "
